@@ -1,14 +1,14 @@
 (* C18 correspondence: case type, model observation, executable statement (written against Pipe.eval /
    Pipe.needed, never against Lazy.lazy_run / Lazy.ev). *)
-From Verif Require Export Base.Prelude Base.StrOrd Base.Graph Model.Pipe Model.Lazy Corr.PipeObs.
+From Verif Require Export Base.Prelude Base.StrOrd Base.Graph Model.Pipe Model.SymNone Model.Lazy Corr.PipeObs.
 
 Inductive case :=
 | CLazy (p : pipeline) (o : str) (kw : alist) (full : bool) (dag : bool).
     (* Pipeline(p, lazy=True).run(o, full_output=full, kwargs=kw), inside `with construct_dag()` when dag;
        then: call log, evaluate_lazy(result), log, evaluate_lazy(result) again, log, task graph *)
 
-Definition body := Sym.body.
-Definition pick := Sym.pick.
+Definition body := SymN.body.
+Definition pick := SymN.pick.
 
 Definition sx_elog (l : list (nat * call)) : sx := sx_strs (map (fun e => Sym.show_call (snd e)) l).
 
